@@ -43,6 +43,8 @@ type Case struct {
 	NTags    int    `json:"ntags,omitempty"`    // mode burst: Tags allocated and used at the same moment as the callers' calls
 	Rounds   int    `json:"rounds,omitempty"`   // mode burst: simultaneous calls per caller
 	Reps     int    `json:"reps,omitempty"`     // mode burst: number of fresh clients
+	ReTag    bool   `json:"retag,omitempty"`    // mode burst: every Tag is freed (TagFree) after a round and allocated again at the next gate
+	Free     int    `json:"free,omitempty"`     // mode mix / burst: quarters (0..4) of the Tag completions the consumer hands back with Tag.ReqFree (which ones: function of Seed)
 }
 
 const deadline = 20 * time.Second
